@@ -171,6 +171,11 @@ func c08Property(t *rapid.T) {
 			x := "SOMEONE"
 			o.Sender = &x
 		}
+		if o.PossDup == "Y" && T > 1 && rapid.Bool().Draw(t, "possdup-below-expected") {
+			// a possible duplicate is, more often than not, a message from the past (of any type: a
+			// replayed Logout, Logon or TestRequest as well as an order)
+			seq = T - rapid.IntRange(1, min(2, T-1)).Draw(t, "below")
+		}
 		var f []byte
 		switch typ {
 		case "garbage":
@@ -195,6 +200,16 @@ func c08Property(t *rapid.T) {
 		st := s.r.In(f)
 		s.observe(st, ctx)
 		s.flush()
+		// an application that keeps sending: right after a step in which the engine transmitted its
+		// Logout is when a message would slip out behind it
+		for _, e := range s.r.Outs(st) {
+			if e.MsgType == "5" && !stopped() && rapid.Bool().Draw(t, "application-sends-right-behind-the-logout") {
+				mon.feat["application-send-right-behind-the-engine-logout"] = true
+				s.engineSend()
+				s.flush()
+				break
+			}
+		}
 	}
 	// scripted application: what the callbacks answer is switched by a generated action
 	var refuseLogon, refuseLogonOrdinary, refuseAdmin, refuseApp, refuseSend bool
